@@ -1,7 +1,7 @@
 SPECIFICATION Spec
 CONSTANTS
   Cap = 1
-  MaxVal = 6
+  MaxVal = 3
   Topics = {0, 1}
 INVARIANT Inv
 CHECK_DEADLOCK FALSE
